@@ -247,6 +247,7 @@ class Frame:
 class NPVec:
     """np.zeros / np.ones with dtype=bool, as used by _column_filter"""
     ndarray = NPShim.ndarray
+    integer = NPShim.integer
     searchsorted = NPShim.searchsorted
 
     @staticmethod
